@@ -778,6 +778,41 @@ func TestC13Structured(t *testing.T) {
 				vn.Queue = nil
 				c.Class("structured/own-hello-answered-x" + fmt.Sprint(copies))
 			}
+			if c.Chance("own-pong", 1, 25) {
+				// The victim pings its peer (keep-alive) and, as it does after a
+				// timeout, asks again under the same ping ID once or twice: a slow
+				// but healthy peer answers every request, so several separately
+				// sealed answers with one ping ID reach the victim.
+				vn := w.ms.vn
+				viaPeer := c.Bool("own-pong.peer")
+				var answers []*vnet.InFlight
+				var id uint64
+				rounds := c.Int("own-pong.rounds", 1, 3)
+				for r := 0; r < rounds; r++ {
+					_, pid, err := w.V.Rtr.PingPong.Send(w.P.IP(), viaPeer, id)
+					if err != nil {
+						break
+					}
+					id = pid
+					for steps := 0; len(vn.Queue) > 0 && steps < 30; steps++ {
+						fl := vn.Drop(0)
+						if fl.To == w.V {
+							answers = append(answers, fl)
+							continue
+						}
+						if r := vn.Inject(fl.To, fl.Link, fl.Data); r.Panicked {
+							c.Fatalf("ping of the victim panicked %s: %v", fl.To.Name, vn.Panics)
+						}
+					}
+				}
+				for k, fl := range answers {
+					if r := vn.Inject(w.V, fl.Link, fl.Data); r.Panicked {
+						c.Fatalf("answer %d of %d to the victim's own ping (one ping ID) panicked a worker of the victim: %v", k+1, len(answers), vn.Panics)
+					}
+				}
+				vn.Queue = nil
+				c.Class("structured/own-ping-answered-x" + fmt.Sprint(len(answers)))
+			}
 			data, desc := w.build(c)
 			if data == nil {
 				continue
